@@ -87,7 +87,7 @@ def run_canaries(unit, workdir, ur):
         new[end:end] = cl
     path = os.path.join(workdir, unit + "_canary.rs")
     open(path, "w").write("\n".join(new))
-    res = verus.run_verus(path)
+    res = verus.run_verus(path, multiple_errors=1)
     obs = []
     cur = None
     for n, ln in enumerate(new, 1):
@@ -308,11 +308,18 @@ def main():
                 o["reason"] = "resource limit exceeded also at 4x rlimit under 3 other seeds"
 
     # canaries
-    canaries = None
-    if tier == "thorough" or os.environ.get("VERIF_CANARIES"):
-        canaries = {}
-        for u in units:
-            canaries[u] = run_canaries(u, workdir, results[u])
+    # canaries on every run (vacuity guard): skipped only for units that already have an undecided/failed front end
+    canaries = {}
+    if units and not os.environ.get("VERIF_NO_CANARIES"):
+        with concurrent.futures.ThreadPoolExecutor(max_workers=max(1, min(8, len(units)))) as ex:
+            cf = {ex.submit(run_canaries, u, workdir, results[u]): u for u in units if not results[u]["frontend"]}
+            for f2 in concurrent.futures.as_completed(cf):
+                canaries[cf[f2]] = f2.result()
+        for u in canaries:
+            if canaries[u]["frontend"]:
+                internal.append("unit %s: canary file rejected by the verifier front end: %s" % (u, canaries[u]["frontend"][:1]))
+            if canaries[u]["rejected"] != canaries[u]["submitted"] and not canaries[u]["accepted_false"]:
+                internal.append("unit %s: canary bookkeeping mismatch (%d submitted, %d rejected)" % (u, canaries[u]["submitted"], canaries[u]["rejected"]))
             if canaries[u]["accepted_false"]:
                 internal.append("unit %s: canary `ensures false` ACCEPTED for %s — contradictory precondition or axiom" % (u, canaries[u]["accepted_false"][:3]))
 
@@ -489,6 +496,7 @@ def main():
         "functions_under_contract": my_functions,
         "obligation_list": [{k: o.get(k) for k in ("id", "function", "backend", "verdict", "ms", "rlimit", "unstable", "reason") if o.get(k) is not None} for o in obligations],
         "solver_time_s": round(solver_s, 3),
+        "verus_runs": [{"unit": u, "verified_items": (results[u]["vr"] or {}).get("verified"), "errors": (results[u]["vr"] or {}).get("errors"), "wall_s": round(results[u]["res"]["wall_s"], 2), "generated_lines": results[u]["text"].count("\n"), "sources": sorted(results[u]["gen"].sources)} for u in units],
         "rewrites_applied": rewrites,
         "assumption_scan": scan,
         "canaries": canaries,
